@@ -117,7 +117,7 @@ reg(None, K + "data", any_, False)
 reg(None, K + "crc", any_, False)
 reg("infer0", "pyModeS.bds.infer", any_)
 reg("infer1", "pyModeS.bds.infer", any_, args=(True,))
-reg(None, "h:props.C14.tell_quiet", any_, False)
+reg("tell", "h:props.C14.tell_quiet", any_, False)
 
 
 def tell_quiet(msg):
